@@ -107,11 +107,17 @@ fn err_name(e: &io::Error) -> &'static str {
     }
 }
 
+thread_local! {
+    /// `reuse` mode: client ports are reported relative to the first port of the current cycle.
+    static PORT_BASE: std::cell::Cell<u16> = const { std::cell::Cell::new(0) };
+}
+
 fn mport(p: u16) -> i64 {
     if p == LPORT {
         MODEL_LPORT
     } else if p >= EPH0 {
-        (p - EPH0) as i64 + 1
+        let base = PORT_BASE.with(|b| b.get());
+        ((p - EPH0 + 16384 - base) % 16384) as i64 + 1
     } else if p == UDP_SRC || p == UDP_DST {
         0
     } else {
@@ -970,42 +976,10 @@ fn reuse(args: &[String]) {
             events.push(json!({"ev": "reset", "keep_kernel": true}));
             // ports are reported relative to this cycle's client port
             let base = w.clients.len();
-            let shift = |mut e: Value, base: usize| {
-                let sub = |v: &mut Value| {
-                    if let Some(x) = v.as_i64() {
-                        if x != MODEL_LPORT && x > 0 {
-                            *v = json!(((x - 1) as usize % 16384) as i64 - (base % 16384) as i64 + 1);
-                        }
-                    }
-                };
-                for k in ["lp", "pp", "p"] {
-                    if let Some(v) = e.get_mut(k) {
-                        sub(v);
-                    }
-                }
+            PORT_BASE.with(|b| b.set((base % 16384) as u16));
+            let shift = |mut e: Value, _base: usize| {
                 if let Some(c) = e.get_mut("c") {
                     *c = json!(1);
-                }
-                if let Some(p) = e.get_mut("p") {
-                    if p.is_object() {
-                        for k in ["sp", "dp"] {
-                            sub(&mut p[k]);
-                        }
-                    }
-                }
-                if let Some(pk) = e.get_mut("pk").and_then(|v| v.as_array_mut()) {
-                    for p in pk {
-                        for k in ["sp", "dp"] {
-                            sub(&mut p[k]);
-                        }
-                    }
-                }
-                if let Some(q) = e.get_mut("obs").and_then(|o| o.get_mut("q")).and_then(|v| v.as_array_mut()) {
-                    for row in q {
-                        for k in ["lp", "rp"] {
-                            sub(&mut row[k]);
-                        }
-                    }
                 }
                 e
             };
@@ -1015,7 +989,7 @@ fn reuse(args: &[String]) {
                 push(events, w.listen());
             } else {
                 // the listener stays up across cycles: tell the PropSpec
-                events.push(json!({"ev": "listen", "port": MODEL_LPORT, "obs": shift(json!({"obs": w.obs()}), base)["obs"]}));
+                events.push(json!({"ev": "listen", "port": MODEL_LPORT, "obs": w.obs()}));
             }
             push(events, w.connect());
             let c = w.clients.len();
@@ -1051,6 +1025,7 @@ fn reuse(args: &[String]) {
                     push(events, e);
                 }
                 let p = mport(EPH0 + ((c - 1) % 16384) as u16);
+                debug_assert_eq!(p, 1);
                 if let Some(e) = w.close(p, "c") {
                     push(events, e);
                 }
